@@ -23,8 +23,16 @@ RULE = ("cases = (size, hop <= size, m blocks of exact rationals, block containe
         "overlap-add); samples that are not Q: plain Fractions, ints beyond 2**53, small ints and mixtures "
         "(ola_plain, and a share of the cola / stft signals), with no window and no normalisation, or with "
         "plain rational / integer windows, where every sample past the first size-hop must come back as the "
-        "exact sum; non-trivial = at least 2 blocks and hop < size (ola_plain: at least 2 blocks and a "
-        "sample no double can hold); distinct = distinct case hash")
+        "exact sum; the normalise flag also as 1 / 0; the stft input as list, tuple, deque, Stream, generator or "
+        "iterator, the synthesis window (ola_wnd) in every window kind incl. one-shot iterators, ola_normalize "
+        "False / True / not given, and the whole stft output compared with ola_ref of the processed blocks; "
+        "clause together: 2-4 jobs (direct calls and stft processors with the real overlap_add.list) of one size "
+        "and hop in one process, windows of Q / Fraction / float / int values incl. twins (the same absolute "
+        "values in another type, other signs), started up front or at first use and consumed by a generated "
+        "schedule (nested, in turns, one after the other), every result compared with ola_ref of its own "
+        "arguments; non-trivial = at least 2 blocks and hop < size (ola_plain: at least 2 blocks and a "
+        "sample no double can hold); together: two overlapping results alive at once or an exact window after an equal window of floats; "
+        "distinct = distinct case hash")
 ASSUMPTIONS = [
   "samples and window values are Q (exact); the no-window normalisation gain is the double 1/ceil(size/hop) computed by the code and is taken at its exact binary value",
   "only the pure-Python strategy overlap_add.list is exercised (numpy is not installed); stft gets ola=overlap_add.list or a recording wrapper of it, or no ola= with overlap_add.default set to that recording wrapper for the duration of the case (restored afterwards)",
@@ -32,6 +40,9 @@ ASSUMPTIONS = [
   "a falsy *transform object* is not generated (the unchanged wrapper's 'transform and (lambda ...)' idiom); falsy or truth-less stage *results* are",
   "m = 0 with a given size yields the size-hop zeros of the empty sum; with a detected size the output is empty (upstream test_empty)",
   "plain (non-Q) samples: the overlap memory starts as float zeros, so the first size-hop output samples are sums that began with 0.0 + x and are floats for int / Fraction samples; those are compared within 2**-47 of the sum of the terms' magnitudes, every later sample (all of them when hop == size) by exact equality of value; no assertion on the result's type",
+  "clause together: a window of floats or of ints with normalisation on, and a window of Fractions with normalisation when hop does not divide size, are divided by their gain in double arithmetic on the unchanged tree (float / float, int / int, Fraction / float): those jobs get Q samples and are compared within 2**-46 of the sum of the magnitudes of the terms; every other job (Q windows, Fraction windows otherwise, no normalisation) is compared exactly",
+  "clause together and the stft clause with ola_normalize True / not given: Q samples only (the no-window gain is a double)",
+  "a synthesis window that is not a list cannot be compared when it reaches the recording overlap-add strategy without reading it: that it arrived is checked there, what it was is decided by the output",
   "plain samples are combined only with what leaves them exact on the unchanged tree: no window, or a window of ints / Fractions, without normalisation; a window of Fractions with normalisation when hop divides size (the gain is then a Fraction; otherwise the code pads the hop-strided sums with float zeros); not the no-window normalisation (a double gain) and not int windows with normalisation (int / int is Python's float division)",
 ]
 
@@ -250,7 +261,7 @@ def strat_ola(tier):
       wkind=st.sampled_from(WKINDS), wv=st.lists(qv, min_size=size, max_size=size),
       wshape=st.sampled_from(["free", "free", "nonneg", "zeros", "ones"]),
       bkind=st.sampled_from(BKINDS),
-      norm=st.sampled_from([True, False, "default"]),
+      norm=st.sampled_from([True, False, "default"]), norm_as=st.sampled_from(["bool", "bool", "int"]),
       detect=st.booleans(), hop_default=st.booleans()))
   return st.integers(1, smax).flatmap(
     lambda s: st.tuples(st.just(s), st.sampled_from(["lt", "lt", "lt", "eq"]).flatmap(
@@ -277,7 +288,8 @@ def run_ola(c):
   if not (c["hop_default"] and hop == size):
     kw["hop"] = hop
   if c["norm"] != "default":
-    kw["normalize"] = c["norm"]
+    # the flag is "on" for any true value and "off" for any false one: 1 / 0 are the usual other spelling
+    kw["normalize"] = int(c["norm"]) if c.get("norm_as") == "int" else c["norm"]
   norm = True if c["norm"] == "default" else c["norm"]
   stored = None
   if c["wkind"] != "none":
@@ -310,11 +322,15 @@ def run_ola(c):
   for n, (g, e) in enumerate(zip(got, exp)):
     if not (g == e):
       raise Violation("out[%d] = %r, expected %r (m=%d size=%d hop=%d window=%s %r normalize=%r detect=%r) got=%r"
-                      % (n, g, e, m, size, hop, c["wkind"], wv, c["norm"], detect, got))
+                      % (n, g, e, m, size, hop, c["wkind"], wv, kw.get("normalize", "not given"), detect, got))
   if stored is not None and stored != list(wv):
     raise Violation("overlap_add.list modified the caller's window list: %r is now %r (normalize=%r)"
                     % (list(wv), stored, c["norm"]))
   labels = ["window:" + c["wkind"], "blocks:" + bkind, "normalize:%s" % c["norm"]]
+  if c["norm"] != "default" and c.get("norm_as") == "int":
+    labels.append("normalize given as 1 / 0")
+    if c["norm"]:
+      labels.append("normalize=1")
   if stored is not None:
     labels.append("caller keeps the window list")
   if sdict is not None:
@@ -457,7 +473,9 @@ def strat_stft(tier):
       segs=st.lists(st.lists(qv, min_size=hop, max_size=hop), min_size=R - 1, max_size=R - 1),
       sig=st.one_of(st.lists(qv, max_size=8), st.lists(qv, min_size=hop * R + hop, max_size=24)),
       window_at=st.sampled_from(["analysis", "ola", "none"]),
-      wkind=st.sampled_from(["list", "tuple", "callable", "gen", "stream", "callable+iterable"]),
+      wkind=st.sampled_from(["list", "tuple", "callable", "gen", "stream", "iter", "callable+iterable"]),
+      onorm=st.sampled_from(["False", "False", "not given", "True"]),
+      sigkind=st.sampled_from(["list", "list", "tuple", "generator", "Stream", "deque", "iterator"]),
       ola_via=st.sampled_from(["ola=", "ola=", "default set before build", "default set after build"]),
       style=st.sampled_from(["direct", "decorator", "partial", "partial2"]),
       split=st.lists(st.booleans(), min_size=8, max_size=8),
@@ -564,8 +582,15 @@ def _run_stft(c):
   hop_eff = hop
   if c["hop_given"] or hop != size:
     opts["hop"] = hop
-  expect_ola = {"size": size, "hop": opts.get("hop"), "normalize": False}
-  opts["ola_normalize"] = False
+  # normalisation is the overlap-add's own business: the wrapper passes ola_normalize on when it is
+  # given and passes nothing when it is not (the strategy then normalises, as it does by default)
+  onorm = c.get("onorm", "False") if skind == "Q" else "False"
+  expect_ola = {"size": size, "hop": opts.get("hop")}
+  if onorm != "not given":
+    opts["ola_normalize"] = expect_ola["normalize"] = (onorm == "True")
+  norm_eff = onorm != "False"
+  if norm_eff:
+    w = [Q(v) for v in w]     # (R = 1 builds a window of plain ints; int / int gain is a float division)
   # options of a user-supplied overlap-add strategy: the prefix is removed, nothing else
   for i, name in enumerate(EXTRA):
     if c["split"][(i + 2) % 8] and c["split"][(i + 5) % 8]:
@@ -581,7 +606,9 @@ def _run_stft(c):
   if c["window_at"] == "analysis":
     opts["wnd"] = mk_window(c["wkind"], w)
   elif c["window_at"] == "ola":
-    opts["ola_wnd"] = list(w)
+    # the synthesis window comes in the same kinds as any window (a generator can be used once: it
+    # has to reach the overlap-add unread)
+    opts["ola_wnd"] = list(w) if c["wkind"] == "list" else mk_window(c["wkind"], w)
     expect_ola["wnd"] = list(w)
   # split the options between build time and call time
   names = sorted(opts)
@@ -592,8 +619,9 @@ def _run_stft(c):
     # a call-time option replaces the build-time setting of the same name
     build["size"] = size + 3
     call["size"] = size
-    build["ola_normalize"] = True
-    call["ola_normalize"] = False
+    if onorm != "not given":
+      build["ola_normalize"] = not opts["ola_normalize"]
+      call["ola_normalize"] = opts["ola_normalize"]
   style = c["style"]
   def sibling(partial):
     # something else derived first from the same partial, with keywords of its own, must leave the
@@ -624,7 +652,8 @@ def _run_stft(c):
       if "size" in build else stft(**build)(func)
   if via == "default set after build":
     overlap_add.default = rec_ola
-  out = proc(list(sig), **call)
+  sigkind = c.get("sigkind", "list")
+  out = proc(mk_signal(sigkind, sig), **call)
   if not isinstance(out, Stream):
     raise Violation("stft wrapper returned %s" % type(out).__name__)
   got = list(out)
@@ -644,17 +673,45 @@ def _run_stft(c):
       raise Violation("user function saw block %d as %r, expected window x block = %r" % (k, s, exp))
   if len(ola_kw) != 1:
     raise Violation("overlap-add called %d times" % len(ola_kw))
-  if ola_kw[0] != expect_ola:
+  got_kw = dict(ola_kw[0])
+  if c["window_at"] == "ola" and c["wkind"] != "list" and "wnd" in got_kw:
+    # a window that is not a list (function, generator, Stream ...): the output below tells whether
+    # what arrived was that window
+    got_kw["wnd"] = expect_ola["wnd"]
+  if got_kw != expect_ola:
     raise Violation("overlap-add received %r, expected %r" % (ola_kw[0], expect_ola))
-  if own_hop is not None:
-    return {"nontrivial": nb >= 2, "labels": ["style:" + style, "overlap-add with its own hop", "overlap-add by " + via]}
-  # --- reconstruction (identity processing; the scale pair cancels, 'before only' doubles)
+  # --- the output is the overlap-add of the processed blocks, with the overlap-add's own options
   factor = 2 if st_ == "before only" else 1
+  more = ["signal:" + sigkind]
+  if onorm != "False":
+    more.append("ola_normalize " + ("not given" if onorm == "not given" else "True"))
+  if c["window_at"] == "ola":
+    more.append("synthesis window as " + c["wkind"])
+    if c["wkind"] in ("gen", "iter"):
+      more.append("synthesis window is a one-shot iterator")
+  if sigkind in ("generator", "iterator"):
+    more.append("signal is a one-shot iterator")
+  if skind == "Q":
+    pblks = [[factor * (wi * bi if c["window_at"] == "analysis" else bi) for wi, bi in zip(w, b)] for b in blks]
+    hop_ola = own_hop if own_hop is not None else hop
+    exp_full = ola_ref(pblks, size, hop_ola, w if c["window_at"] == "ola" else None, norm_eff)
+    if len(got) != len(exp_full) or any(not (g == e) for g, e in zip(got, exp_full)):
+      raise Violation("stft output %r, expected %r: the overlap-add (hop %d, window %r, normalize %s) of the "
+                      "processed blocks %r (size=%d hop=%d, window at %s given as %s, style %s, signal given as %s)"
+                      % (got, exp_full, hop_ola, w if c["window_at"] == "ola" else None,
+                         "not given" if onorm == "not given" else norm_eff, pblks, size, hop, c["window_at"],
+                         c["wkind"], style, sigkind))
+  if own_hop is not None:
+    return {"nontrivial": nb >= 2, "labels": ["style:" + style, "overlap-add with its own hop",
+                                               "overlap-add by " + via] + more}
+  # --- reconstruction (identity processing; the scale pair cancels, 'before only' doubles)
   N = len(sig)
   if len(got) != nb * hop + size - hop:
     raise Violation("output length %d, expected %d" % (len(got), nb * hop + size - hop))
   covered = 0
-  if c["window_at"] != "none":
+  if norm_eff:
+    pass          # (normalised: the whole output was compared above; the signal comes back scaled)
+  elif c["window_at"] != "none":
     for n in range(N):
       if len([k for k in range(nb) if 0 <= n - k * hop < size]) == R:
         covered += 1
@@ -677,7 +734,7 @@ def _run_stft(c):
     del seen[:], log[:], ola_kw[:]
     call2 = dict(call)
     call2["wnd"] = (lambda n: list(w2)) if c["split"][6] else list(w2)
-    got2 = list(proc(list(sig), **call2))
+    got2 = list(proc(mk_signal(sigkind, sig), **call2))
     for k, (s2, b) in enumerate(zip(seen, blks)):
       exp = [wi * bi for wi, bi in zip(w2, b)]
       if "before" in expect_order:
@@ -694,7 +751,8 @@ def _run_stft(c):
   return {"nontrivial": nb >= 2 and R >= 2,
           "labels": labels_extra + ["style:" + style, "window at " + c["window_at"], "stages:" + st_, "overlap-add by " + via,
                      "samples:" + skind,
-                     "call-time options" if call else "build-time only"] + (["call-time override"] if override else [])}
+                     "call-time options" if call else "build-time only"] + (["call-time override"] if override else [])
+                    + more}
 
 
 # ------------------------------------------------------------------ STFT stages: values of any kind
@@ -919,11 +977,288 @@ def run_stft_bad(c):
   raise Violation("%s was accepted and produced %r" % (what, got))
 
 
+# ------------------------------------------------------------------ several results in one process
+# Every overlap-add result is a function of its own arguments only: whatever other calls were made
+# before it in the same process, and whatever other results are alive (started, not yet exhausted)
+# while it is being consumed.  A case is a handful of jobs (direct overlap_add.list calls and stft
+# processors with the real overlap_add.list) with one size and hop, and a schedule that says when
+# each one is started and how many samples are pulled from which one in which order.
+WTYPES = ["Q", "Fraction", "float", "int"]
+SIGKINDS = {"lists": "list", "tuples": "tuple", "gen": "generator", "stream": "Stream",
+            "deques": "deque", "iters": "iterator"}
+NONE4 = dict(transform=None, inverse_transform=None, before=None, after=None)
+dyadic = st.one_of(st.integers(-3, 3).map(F), st.integers(-12, 12).map(lambda k: F(k, 4)))
+
+
+def mk_signal(kind, sig):
+  """The input signal of a stft processor in one of the kinds an iterable comes in."""
+  if kind == "list":
+    return list(sig)
+  if kind == "tuple":
+    return tuple(sig)
+  if kind == "generator":
+    return (v for v in list(sig))
+  if kind == "Stream":
+    return Stream(list(sig))
+  if kind == "deque":
+    return deque(sig)
+  return iter(list(sig))
+
+
+def _wconv(vals, wtype):
+  """Window values in one numeric type.  Ints: the values themselves when they all are whole numbers,
+  else four times the values, truncated (some window of ints)."""
+  if wtype == "Q":
+    return [Q(v) for v in vals]
+  if wtype == "Fraction":
+    return [F(v) for v in vals]
+  if wtype == "float":
+    return [float(v) for v in vals]
+  k = 1 if all(F(v).denominator == 1 for v in vals) else 4
+  return [int(F(v) * k) for v in vals]
+
+
+def _divisors(n):
+  return [d for d in range(1, n + 1) if n % d == 0]
+
+
+def _shape_together(c):
+  """plan 'twins': job 0 normalises with a window of floats, job 1 normalises with a window of
+  Fractions that has the same absolute values (other signs), and job 0 is started first."""
+  if c["plan"] != "twins":
+    return c
+  c = dict(c)
+  jobs = [dict(j) for j in c["jobs"]]
+  for j, wtype in ((0, "float"), (1, "Fraction")):
+    jobs[j]["wsrc"] = "base"
+    jobs[j]["wtype"] = wtype
+    if jobs[j]["norm"] is False:
+      jobs[j]["norm"] = True
+    if jobs[j]["via"] == "stft analysis":
+      jobs[j]["via"] = "stft"
+  c["jobs"] = jobs
+  c["steps"] = [(0, 1)] + [tuple(s) for s in c["steps"]]
+  return c
+
+
+def strat_together(tier):
+  smax = 6 if tier == "quick" else 8
+
+  def rest(k):
+    size, hop, plan = k
+    blk = st.lists(qv, min_size=size, max_size=size)
+    job = st.fixed_dictionaries(dict(
+      blks=st.one_of(st.lists(blk, max_size=4), st.lists(blk, min_size=2, max_size=4)),
+      skind=st.sampled_from(["Q", "Q", "Fraction", "big int"]),
+      wsrc=st.sampled_from(["base", "base", "own", "none"]),
+      wv=st.lists(qv, min_size=size, max_size=size),
+      flip=st.lists(st.booleans(), min_size=size, max_size=size),
+      wtype=st.sampled_from(WTYPES),
+      wkind=st.sampled_from(["list", "tuple", "callable", "gen", "stream", "iter", "callable+iterable"]),
+      bkind=st.sampled_from(BKINDS),
+      norm=st.sampled_from([True, "default", False]),
+      via=st.sampled_from(["ola", "ola", "stft", "stft analysis"])))
+    return st.fixed_dictionaries(dict(
+      size=st.just(size), hop=st.just(hop), plan=st.just(plan),
+      wbase=st.lists(dyadic, min_size=size, max_size=size),
+      jobs=st.lists(job, min_size=2, max_size=4),
+      create=st.sampled_from(["all before the first sample", "at first use"]),
+      steps=st.lists(st.tuples(st.integers(0, 3), st.integers(1, size + 2)), max_size=8),
+      drain=st.sampled_from(["in order", "reverse order", "one sample each in turns"]),
+      shared_proc=st.booleans())).map(_shape_together)
+
+  def hops(sp):
+    size, plan = sp
+    if plan == "twins":       # (a window of Fractions keeps an exact gain only when hop divides size)
+      return st.tuples(st.just(size), st.sampled_from(_divisors(size)), st.just(plan))
+    return st.tuples(st.just(size), st.sampled_from(["lt", "lt", "lt", "eq"]).flatmap(
+      lambda r: st.just(size) if r == "eq" or size == 1 else st.integers(1, size - 1)), st.just(plan))
+  return st.tuples(st.integers(1, smax), st.sampled_from(["free", "free", "twins"])).flatmap(hops).flatmap(rest)
+
+
+def _together_job(c, j):
+  """Everything about job j that follows from the case: the values handed over, how the call is
+  made, and what the statement says must come out."""
+  size, hop = c["size"], c["hop"]
+  job = c["jobs"][j]
+  via, wtype, nopt = job["via"], job["wtype"], job["norm"]
+  norm = nopt is not False                      # "default": the option is not given; the overlap-add normalises
+  analysis = via == "stft analysis"
+  if job["wsrc"] == "none":
+    wobj_vals = None
+  elif job["wsrc"] == "base":
+    wobj_vals = _wconv([-v if f else v for v, f in zip(c["wbase"], job["flip"])], wtype)
+  else:
+    wobj_vals = _wconv(job["wv"], wtype)
+  wvals = None if wobj_vals is None else [F(x) for x in wobj_vals]
+  # what is rounded on the unchanged tree (ASSUMPTIONS): w / gain for windows of floats, of ints
+  # (int / int) and of Fractions when hop does not divide size (the strided sums are padded with 0.0)
+  rounded = (wvals is not None and not analysis and norm
+             and (wtype in ("float", "int") or (wtype == "Fraction" and size % hop != 0)))
+  # plain samples only where no float meets them
+  skind = job["skind"]
+  if via != "ola" or rounded or wtype == "float" and wvals is not None or wvals is None and norm:
+    skind = "Q"
+  blks = [[to_plain(v, skind, k * size + i) for i, v in enumerate(b)] for k, b in enumerate(job["blks"])]
+  sig = [v for b in blks for v in b]
+  if via == "ola":
+    oblks = blks
+  else:
+    oblks = [list(b) for b in blocks(list(sig), size=size, hop=hop)]
+  if analysis and wvals is not None:
+    pblks, ow = [[w * F(v) for w, v in zip(wvals, b)] for b in oblks], None
+  else:
+    pblks, ow = oblks, wvals
+  exp = ola_ref(pblks, size, hop, ow, norm)
+  mag = None
+  if rounded:
+    mag = ola_ref([[abs(F(v)) for v in b] for b in pblks], size, hop, [abs(v) for v in ow], norm)
+  bkind = job["bkind"]
+  what = ("job %d: %s, %d blocks %r, window %s%s, normalize %s, %s samples"
+          % (j, via if via == "ola" else via + " (signal given as %s)" % SIGKINDS[bkind], len(oblks), oblks,
+             "none" if wobj_vals is None else "%r as %s" % (wobj_vals, job["wkind"]),
+             " (analysis window)" if analysis and wobj_vals is not None else "",
+             "not given" if nopt == "default" else nopt, skind))
+
+  def make(proc):
+    wobj = None if wobj_vals is None else mk_window(job["wkind"], wobj_vals)
+    if via == "ola":
+      kw = dict(size=size, hop=hop)
+      if nopt != "default":
+        kw["normalize"] = nopt
+      if wobj is not None:
+        kw["wnd"] = wobj
+      return overlap_add.list(mk_blocks(bkind, blks), **kw)
+    kw = {}
+    if nopt != "default":
+      kw["ola_normalize"] = nopt
+    if wobj is not None:
+      kw["wnd" if analysis else "ola_wnd"] = wobj
+    return proc(mk_signal(SIGKINDS[bkind], sig), **kw)
+  return dict(via=via, wtype=wtype, norm=norm, nopt=nopt, analysis=analysis, wvals=wvals, rounded=rounded,
+              skind=skind, pblks=pblks, ow=ow, exp=exp, mag=mag, what=what, make=make, nblocks=len(oblks))
+
+
+def run_together(c):
+  size, hop = c["size"], c["hop"]
+  nj = len(c["jobs"])
+  plans = [_together_job(c, j) for j in range(nj)]
+
+  def new_proc():
+    return stft(lambda blk: blk, size=size, hop=hop, ola=overlap_add.list, **NONE4)
+  the_proc = new_proc() if c["shared_proc"] else None
+  its = [None] * nj
+  got = [[] for _ in range(nj)]
+  ended = [False] * nj
+  timeline = []                       # ("start" / "end", job) in the order things happened
+  pulls = []                          # (job, samples asked for)
+
+  def start(j):
+    out = plans[j]["make"](the_proc if the_proc is not None else new_proc())
+    if not isinstance(out, Stream):
+      raise Violation("%s returned %s" % (plans[j]["via"], type(out).__name__))
+    its[j] = iter(out)
+
+  def pull(j, n):
+    if its[j] is None:
+      start(j)
+    pulls.append((j, n))
+    for _ in range(n):
+      if ("start", j) not in timeline:
+        timeline.append(("start", j))
+      try:
+        v = next(its[j])
+      except StopIteration:
+        if not ended[j]:
+          ended[j] = True
+          timeline.append(("end", j))
+        return
+      if ended[j]:
+        raise Violation("a result that had ended yields again: %r (%s)" % (v, plans[j]["what"]))
+      got[j].append(v)
+
+  if c["create"] == "all before the first sample":
+    for j in range(nj):
+      start(j)
+  for j, n in c["steps"]:
+    pull(j % nj, n)
+  most = max(len(p["exp"]) for p in plans) + size + 3
+  if c["drain"] == "one sample each in turns":
+    for _ in range(most):
+      for j in range(nj):
+        if not ended[j]:
+          pull(j, 1)
+  else:
+    for j in (range(nj) if c["drain"] == "in order" else reversed(range(nj))):
+      pull(j, most)
+  # once more: a finished result stays finished
+  for j in range(nj):
+    pull(j, 1)
+  story = "; ".join("%d from job %d" % (n, j) for j, n in pulls)
+  for j, p in enumerate(plans):
+    what = "%s; %d jobs, %s, pulled: %s" % (p["what"], nj, c["create"], story)
+    if p["skind"] != "Q":
+      check_plain(got[j], p["pblks"], size, hop, p["ow"], p["norm"], what)
+      continue
+    exp = p["exp"]
+    if len(got[j]) != len(exp):
+      raise Violation("%d samples, expected m*h+size-h = %d (size=%d hop=%d; %s)"
+                      % (len(got[j]), len(exp), size, hop, what))
+    for n, (g, e) in enumerate(zip(got[j], exp)):
+      if isinstance(g, complex) or g != g:
+        raise Violation("out[%d] = %r (%s)" % (n, g, what))
+      ok = abs(F(g) - e) <= p["mag"][n] / 2 ** 46 if p["rounded"] else (g == e)
+      if not ok:
+        raise Violation("out[%d] = %r, expected %s%s (size=%d hop=%d): a result depends on its own arguments only, "
+                        "not on the other calls of the process; got %r, expected %r; %s"
+                        % (n, g, "about " if p["rounded"] else "exactly ", e, size, hop, got[j], exp, what))
+  # ---- what the case was
+  pos = {ev: i for i, ev in enumerate(timeline)}
+  together = overlapping = twins = False
+  for a in range(nj):
+    for b in range(nj):
+      if a == b or ("start", a) not in pos or ("start", b) not in pos:
+        continue
+      pa, pb = plans[a], plans[b]
+      if pos[("start", a)] < pos[("start", b)] < pos.get(("end", a), len(timeline)):
+        together = True
+        if hop < size and pa["nblocks"] and pb["nblocks"]:
+          overlapping = True
+      if (pos[("start", a)] < pos[("start", b)] and pa["wtype"] == "float" and pb["wtype"] == "Fraction"
+          and pa["norm"] and pb["norm"] and not pa["analysis"] and not pb["analysis"]
+          and pa["wvals"] is not None and pb["wvals"] is not None and size % hop == 0
+          and [abs(v) for v in pa["wvals"]] == [abs(v) for v in pb["wvals"]]):
+        twins = True
+  labels = ["%d jobs" % nj, c["create"], "drained " + c["drain"]]
+  labels += sorted(set("via:" + p["via"] for p in plans))
+  labels += sorted(set("window of " + p["wtype"] for p in plans if p["wvals"] is not None))
+  if any(p["nopt"] == "default" for p in plans):
+    labels.append("normalize not given")
+  if any(p["nopt"] == "default" and p["via"] != "ola" for p in plans):
+    labels.append("stft job, ola_normalize not given")
+  if any(p["skind"] != "Q" for p in plans):
+    labels.append("plain samples")
+  if any(p["rounded"] for p in plans):
+    labels.append("a rounded gain (compared within 2**-46)")
+  if together:
+    labels.append("results alive together")
+  if overlapping:
+    labels.append("overlapping results alive together")
+  if twins:
+    labels.append("exact window after an equal window of floats")
+  if c["shared_proc"] and len([p for p in plans if p["via"] != "ola"]) >= 2:
+    labels.append("one processor, several signals")
+  kinds = set(SIGKINDS[j["bkind"]] for j, p in zip(c["jobs"], plans) if p["via"] != "ola")
+  if kinds & {"generator", "iterator"}:
+    labels.append("stft signal is a one-shot iterator")
+  return {"nontrivial": overlapping or twins, "labels": labels}
+
+
 CLAUSES = [
   Clause("ola", strat_ola, run_ola, quick=2500, thorough=40000,
          floors={"overlapping": .3, "detected size": .2, "no blocks": .03, "negative window entries": .1,
                  "normalize:True": .15, "window:callable+iterable": .03,
-                 "window is a strategy dictionary": .06},
+                 "window is a strategy dictionary": .06, "normalize=1": .03},
          doc="overlap_add.list == ola_ref: length m*h+size-h and every sample of the windowed hop-shifted sum with the stated gain"),
   Clause("ola_plain", strat_ola_plain, run_ola_plain, quick=1500, thorough=25000,
          floors={"samples:Fraction": .08, "samples:big int": .08, "samples:mixed": .08,
@@ -942,7 +1277,9 @@ CLAUSES = [
   Clause("stft", strat_stft, run_stft, quick=1200, thorough=20000,
          floors={"style:decorator": .1, "style:partial": .1, "call-time options": .3, "window at analysis": .2,
                  "call-time override": .05, "overlap-add by default set before build": .08,
-                 "overlap-add by default set after build": .08, "samples:Fraction": .05, "samples:big int": .05},
+                 "overlap-add by default set after build": .08, "samples:Fraction": .05, "samples:big int": .05,
+                 "synthesis window is a one-shot iterator": .015, "signal is a one-shot iterator": .065,
+                 "ola_normalize not given": .04, "ola_normalize True": .03},
          doc="stft wiring (window x block reaches the user function, stage order, ola_ options stripped and passed) and identity reconstruction"),
   Clause("stft_stage_values", strat_values, run_values, quick=1200, thorough=15000,
          floors={"a stage result is falsy": .15, "falsy because of the data (zero / empty)": .08,
@@ -952,4 +1289,15 @@ CLAUSES = [
              "overlap-added (or handed out with ola=None)"),
   Clause("stft_refusals", strat_stft_bad, run_stft_bad, quick=300, thorough=3000,
          doc="unknown option / missing size / ola option without ola -> TypeError; hop > size / wrong window length -> ValueError; ola=None yields blocks"),
+  Clause("together", strat_together, run_together, quick=1600, thorough=25000,
+         floors={"results alive together": .2, "overlapping results alive together": .1,
+                 "exact window after an equal window of floats": .08, "via:stft": .15, "via:stft analysis": .1,
+                 "stft job, ola_normalize not given": .08, "stft signal is a one-shot iterator": .08,
+                 "one processor, several signals": .025, "plain samples": .1, "window of int": .05,
+                 "drained one sample each in turns": .1, "at first use": .15},
+         doc="several overlap-add results in one process (direct calls and stft processors with the real "
+             "overlap_add.list, one size and hop), started and consumed in a generated order - in turns, nested, "
+             "one after the other: each result is the defining sum of its own blocks, window and gain, whatever "
+             "calls came before it (windows with the same absolute values in another numeric type, other signs) "
+             "and whatever other results are alive"),
 ]
